@@ -114,6 +114,24 @@ __CPROVER_ensures(cv_words[0] == SPEC_LOAD32(bytes_out, 0) && cv_words[1] == SPE
   __CPROVER_requires(__CPROVER_r_ok(block, 64))                                          \
   __CPROVER_requires(block_len <= 64)                                                    \
   __CPROVER_requires(__CPROVER_w_ok(out, 64))
+/* units *_fn only (FN(...) is empty otherwise): the result is an uninterpreted function of ALL
+ * value arguments (spec_fn.h); inputs and output must not overlap for that to be meaningful */
+#define VERIF_DISJ(a, na, b, nb)                                                         \
+  (!__CPROVER_same_object(a, b) || VPOFF(a) + (size_t)(na) <= VPOFF(b) ||                \
+   VPOFF(b) + (size_t)(nb) <= VPOFF(a))
+#define COMPRESS_IN_PLACE_FN                                                             \
+  FN(__CPROVER_requires(VERIF_DISJ(cv, 32, block, 64)))                                  \
+  FN(__CPROVER_ensures(V256(cv) == VERIF_UF_CIP_OLDCV(cv, block, block_len, counter, flags)))
+#define COMPRESS_XOF_FN                                                                  \
+  FN(__CPROVER_requires(VERIF_DISJ(out, 64, cv, 32) && VERIF_DISJ(out, 64, block, 64)))  \
+  FN(__CPROVER_ensures(V512(out) == VERIF_UF_XOF(cv, block, block_len, counter, flags)))
+/* block b of the output is the XOF block with counter + b: every byte, via the witness */
+#define XOF_MANY_FN                                                                      \
+  FN(__CPROVER_requires(outblocks == 0 || (VERIF_DISJ(out, 64 * outblocks, cv, 32) &&    \
+                                           VERIF_DISJ(out, 64 * outblocks, block, 64)))) \
+  FN(__CPROVER_ensures(VW_IN(out, 64 * outblocks) ==>                                    \
+       VW_AT(out) == VBYTE(VERIF_UF_XOF(cv, block, block_len, counter + VW_IDX(out) / 64, flags), \
+                         VW_IDX(out) % 64)))
 #define XOF_MANY_REQUIRES                                                                \
   __CPROVER_requires(__CPROVER_r_ok(cv, 32))                                             \
   __CPROVER_requires(__CPROVER_r_ok(block, 64))                                          \
@@ -136,6 +154,7 @@ void blake3_compress_in_place_portable(uint32_t cv[8], const uint8_t block[BLAKE
                                        uint8_t block_len, uint64_t counter, uint8_t flags)
 COMPRESS_IN_PLACE_REQUIRES
 __CPROVER_assigns(__CPROVER_object_upto(cv, 32))
+COMPRESS_IN_PLACE_FN
 ;
 
 void blake3_compress_xof_portable(const uint32_t cv[8], const uint8_t block[BLAKE3_BLOCK_LEN],
@@ -143,6 +162,7 @@ void blake3_compress_xof_portable(const uint32_t cv[8], const uint8_t block[BLAK
                                   uint8_t out[64])
 COMPRESS_XOF_REQUIRES
 __CPROVER_assigns(__CPROVER_object_upto(out, 64))
+COMPRESS_XOF_FN
 ;
 
 static inline void hash_one_portable(const uint8_t *input, size_t blocks, const uint32_t key[8],
@@ -170,11 +190,13 @@ void blake3_compress_in_place_sse2(uint32_t cv[8], const uint8_t block[BLAKE3_BL
                                    uint8_t block_len, uint64_t counter, uint8_t flags)
 COMPRESS_IN_PLACE_REQUIRES
 __CPROVER_assigns(__CPROVER_object_upto(cv, 32))
+COMPRESS_IN_PLACE_FN
 ;
 void blake3_compress_xof_sse2(const uint32_t cv[8], const uint8_t block[BLAKE3_BLOCK_LEN],
                               uint8_t block_len, uint64_t counter, uint8_t flags, uint8_t out[64])
 COMPRESS_XOF_REQUIRES
 __CPROVER_assigns(__CPROVER_object_upto(out, 64))
+COMPRESS_XOF_FN
 ;
 void blake3_hash_many_sse2(const uint8_t *const *inputs, size_t num_inputs, size_t blocks,
                            const uint32_t key[8], uint64_t counter, bool increment_counter,
@@ -188,11 +210,13 @@ void blake3_compress_in_place_sse41(uint32_t cv[8], const uint8_t block[BLAKE3_B
                                     uint8_t block_len, uint64_t counter, uint8_t flags)
 COMPRESS_IN_PLACE_REQUIRES
 __CPROVER_assigns(__CPROVER_object_upto(cv, 32))
+COMPRESS_IN_PLACE_FN
 ;
 void blake3_compress_xof_sse41(const uint32_t cv[8], const uint8_t block[BLAKE3_BLOCK_LEN],
                                uint8_t block_len, uint64_t counter, uint8_t flags, uint8_t out[64])
 COMPRESS_XOF_REQUIRES
 __CPROVER_assigns(__CPROVER_object_upto(out, 64))
+COMPRESS_XOF_FN
 ;
 void blake3_hash_many_sse41(const uint8_t *const *inputs, size_t num_inputs, size_t blocks,
                             const uint32_t key[8], uint64_t counter, bool increment_counter,
@@ -214,11 +238,13 @@ void blake3_compress_in_place_avx512(uint32_t cv[8], const uint8_t block[BLAKE3_
                                      uint8_t block_len, uint64_t counter, uint8_t flags)
 COMPRESS_IN_PLACE_REQUIRES
 __CPROVER_assigns(__CPROVER_object_upto(cv, 32))
+COMPRESS_IN_PLACE_FN
 ;
 void blake3_compress_xof_avx512(const uint32_t cv[8], const uint8_t block[BLAKE3_BLOCK_LEN],
                                 uint8_t block_len, uint64_t counter, uint8_t flags, uint8_t out[64])
 COMPRESS_XOF_REQUIRES
 __CPROVER_assigns(__CPROVER_object_upto(out, 64))
+COMPRESS_XOF_FN
 ;
 void blake3_hash_many_avx512(const uint8_t *const *inputs, size_t num_inputs, size_t blocks,
                              const uint32_t key[8], uint64_t counter, bool increment_counter,
@@ -234,6 +260,7 @@ void blake3_xof_many_avx512(const uint32_t cv[8], const uint8_t block[BLAKE3_BLO
 XOF_MANY_REQUIRES
 __CPROVER_requires(outblocks >= 1)
 __CPROVER_assigns(__CPROVER_object_upto(out, 64 * outblocks))
+XOF_MANY_FN
 ;
 #endif
 #endif
@@ -298,6 +325,7 @@ COMPRESS_IN_PLACE_REQUIRES
 __CPROVER_requires(VERIF_GCPU_OK)
 __CPROVER_assigns(__CPROVER_object_upto(cv, 32), g_cpu_features)
 __CPROVER_ensures(VERIF_GCPU_OK)
+COMPRESS_IN_PLACE_FN
 ;
 
 void blake3_compress_xof(const uint32_t cv[8], const uint8_t block[BLAKE3_BLOCK_LEN],
@@ -306,6 +334,7 @@ COMPRESS_XOF_REQUIRES
 __CPROVER_requires(VERIF_GCPU_OK)
 __CPROVER_assigns(__CPROVER_object_upto(out, 64), g_cpu_features)
 __CPROVER_ensures(VERIF_GCPU_OK)
+COMPRESS_XOF_FN
 ;
 
 /* exactly 64 bytes per XOF block, nothing when outblocks == 0 */
@@ -317,6 +346,7 @@ __CPROVER_requires(VERIF_GCPU_OK)
 __CPROVER_assigns(outblocks > 0: __CPROVER_object_upto(out, 64 * outblocks);
                   outblocks > 0: g_cpu_features)
 __CPROVER_ensures(VERIF_GCPU_OK)
+XOF_MANY_FN
 ;
 
 /* exactly 32 bytes per hashed input */
@@ -434,6 +464,12 @@ __CPROVER_ensures(WORDS8_EQ(__CPROVER_return_value.input_cv, key))
 __CPROVER_ensures(BYTES64_EQ(__CPROVER_return_value.block, block))
 ;
 
+/* byte i of the root output of node o read from position seek: block counter and offset */
+#define VERIF_ROOT_BYTE(o, seek, i)                                                      \
+  VBYTE(VERIF_UF_XOF((o)->input_cv, (o)->block, (o)->block_len,                          \
+                     (seek) / 64 + ((seek) % 64 + (uint64_t)(i)) / 64, (o)->flags | ROOT), \
+        ((seek) % 64 + (uint64_t)(i)) % 64)
+
 /* writes exactly 32 bytes */
 static inline void output_chaining_value(const output_t *self, uint8_t cv[32])
 __CPROVER_requires(__CPROVER_is_fresh(self, sizeof(*self)))
@@ -443,6 +479,9 @@ __CPROVER_requires(__CPROVER_is_fresh(cv, 32))
 __CPROVER_requires(VERIF_GCPU_OK)
 __CPROVER_assigns(__CPROVER_object_upto(cv, 32), g_cpu_features)
 __CPROVER_ensures(VERIF_GCPU_OK)
+/* *_fn: the 32 bytes are the little-endian words of ONE compression of exactly the node's five fields */
+FN(__CPROVER_ensures(V256(cv) == VERIF_UF_CIP(self->input_cv, self->block, self->block_len,
+                                              self->counter, self->flags)))
 ;
 
 /* writes exactly out[0..out_len), for every seek; out_len == 0 touches nothing */
@@ -457,6 +496,9 @@ __CPROVER_requires(VERIF_GCPU_OK)
 __CPROVER_assigns(out_len > 0: __CPROVER_object_upto(out, out_len);
                   out_len > 0: g_cpu_features)
 __CPROVER_ensures(VERIF_GCPU_OK)
+/* *_fn: EVERY requested byte i is byte (seek + i) % 64 of the XOF block (seek + i) / 64 of this node
+ * with ROOT set (written without wrap-around: seek / 64 + (seek % 64 + i) / 64) */
+FN(__CPROVER_ensures(VW_IN(out, out_len) ==> VW_AT(out) == VERIF_ROOT_BYTE(self, seek, VW_IDX(out))))
 ;
 
 /* domain: the bytes fit into the current chunk.  Shape: the chunk grows by exactly
